@@ -1,0 +1,9 @@
+//go:build verif
+
+package event
+
+// Contracts for package event, checked by /verif (govc). Comment-only file: it adds no declarations.
+
+// listeners are application code and the transport's mDNS update: they may change any real heap cell
+//@ invoke "github.com/brutella/hc/event.Emitter.Emit"(e, ev)
+//@   modifies heap
